@@ -386,6 +386,7 @@ type checkDef struct {
 	probes   []string // reach probes this check cares about
 	timeout  time.Duration
 	variants []string // job i runs worker check variants[i % len]
+	special  bool     // the worker enumerates a finite case space itself (evaluations come from the job)
 }
 
 func seedFor(base uint64, i int) uint64 {
@@ -870,8 +871,12 @@ func writeEvidence(def *checkDef, check, tier string, seed uint64, a *agg, wall 
 	}
 	sort.Strings(unreached)
 	nt := len(a.schedNT)
+	evals := a.runs
+	if def.special {
+		evals, nt = int(a.extra["evaluations"]), int(a.extra["distinct_nontrivial"])
+	}
 	cov := map[string]interface{}{
-		"evaluations":         a.runs,
+		"evaluations":         evals,
 		"distinct_nontrivial": nt,
 		"rule":                def.rule,
 		"samples":             a.samples,
@@ -897,7 +902,12 @@ func writeEvidence(def *checkDef, check, tier string, seed uint64, a *agg, wall 
 		"exhaustive": false,
 	}
 	for k, v := range a.extra {
-		cov[k] = v
+		if k != "evaluations" && k != "distinct_nontrivial" && k != "exhaustive" {
+			cov[k] = v
+		}
+	}
+	if a.extra["exhaustive"] > 0 && !violated {
+		cov["exhaustive"] = true
 	}
 	ev := map[string]interface{}{
 		"property_id": def.property,
